@@ -261,6 +261,108 @@ theorem head_runs_at_next_poll (ops : Ops W) {s : St W} (h : Reachable ops s) (t
       exact (pollCompleted_keeps_queued hinv1 x hxq w hx).1
     · exact (pollCompleted_keeps_queued hinv1 id ⟨fd, d, hmemS⟩ w0 hw0).2
 
+/-- `PollExtra::reset`: afterwards NO tracked descriptor of the operation is marked ready — whatever the
+    number of descriptors (one for every operation except `Splice`). -/
+theorem reset_marks_every_fd_unready (ts : List Track) : ∀ t ∈ resetTracks ts, t.ready = false := by
+  intro t ht
+  obtain ⟨t0, _, rfl⟩ := List.mem_map.1 ht
+  rfl
+
+/-- Spurious / stolen readiness.  The head of a queue is run on a readiness event but its system call
+    answers EAGAIN (`operate` = `Pending`: somebody else took the data, e.g. a receive on another
+    descriptor of the same socket).  When `poll` returns the operation is back at the FRONT of the very
+    same queue, its tracked descriptor is marked NOT ready (`PollExtra::reset` runs for single-descriptor
+    operations too), the descriptor is armed again with `event()`, the slot is still pending, and the
+    invariant holds — so `head_runs_at_next_poll` applies again at the next event: the operation is not lost.
+    (`head_runs_at_next_poll` needs exactly this: it finds the descriptor of an event through
+    `next_fd()` = first not-ready descriptor of the registered key, i.e. through the invariant "a queued
+    operation is tracked not-ready", `queued_where_it_waits`.) -/
+theorem pending_operate_requeues_unready (ops : Ops W) {s : St W} (h : Reachable ops s) (t : Bool)
+    (fd : Fd) (q : FdQueue) (id : Id) (rest : List Id) (rd wr : Bool) (w' : W)
+    (hr : s.reg fd = some q)
+    (hhead : (rd = true ∧ q.readQ = id :: rest) ∨
+             (wr = true ∧ q.writeQ = id :: rest ∧ (rd = false ∨ q.readQ = [])))
+    (hop : ops.operate s.world id = (none, w')) :
+    ∃ s' d, poll ops s t [⟨fd, rd, wr⟩] = .ok (s', .ok) ∧
+      s'.reg fd = some q ∧ q.get d = id :: (match d with | .read => rest | .write => rest) ∧
+      s'.track id = [⟨fd, d, false⟩] ∧ nextFd (s'.track id) = some fd ∧
+      s'.epoll fd = some q.event ∧ (∃ w, s'.keys.slot id = .pending w) ∧ s'.keys.fin id = [] ∧
+      Inv noPend s' := by
+  have hinv := reachable_inv h
+  obtain ⟨hne, ev0, he, _, hev⟩ := (hinv.q.armed fd).reg_some hr
+  have hev0 : ev0 = q.event := hev (fun hp => hp)
+  subst hev0
+  have harm : (q.event.readable || q.event.writable) = true := by
+    have := FdQueue.event_flags_of_nonempty q hne
+    cases h1 : q.event.readable <;> cases h2 : q.event.writable <;> simp_all
+  have hdel : deliver s [⟨fd, rd, wr⟩] =
+      .ok ({ s with epoll := upd s.epoll fd (some { q.event with readable := false, writable := false }) },
+           [⟨q.event.key, rd, wr⟩]) := by
+    simp [deliver, he, harm]
+  obtain ⟨hinv1, _, _, _, _⟩ := inv_deliver hinv _ _ hdel
+  obtain ⟨d, q', hpop, hget, hrestd, hqeq⟩ : ∃ d q', q.popInterest ⟨q.event.key, rd, wr⟩ = some (id, q') ∧
+      q.get d = id :: q'.get d ∧ q.get d = id :: (match d with | .read => rest | .write => rest) ∧
+      q = q'.pushFront id d := by
+    rcases hhead with ⟨h1, h2⟩ | ⟨h1, h2, h3⟩
+    · refine ⟨.read, _, FdQueue.popInterest_read q _ id rest h2 h1, by simp [FdQueue.get, h2],
+        by simp [FdQueue.get, h2], ?_⟩
+      cases q; simp only at h2; subst h2; rfl
+    · refine ⟨.write, _, FdQueue.popInterest_write q _ id rest h2 h1 h3, by simp [FdQueue.get, h2],
+        by simp [FdQueue.get, h2], ?_⟩
+      cases q; simp only at h2; subst h2; rfl
+  have hmemS : id ∈ s.queue fd d := by rw [queue_of_reg_some hr, hget]; simp
+  have htr := hinv.q.tracked fd d id hmemS
+  have hsrc := (hinv.k.qFresh id ⟨fd, d, hmemS⟩).1
+  obtain ⟨w0, hw0⟩ := hinv.k.pending_of_fresh hsrc (Or.inl ⟨fd, d, hmemS⟩)
+  have hfin := (hinv.k.fin_of_src_nil hsrc).1
+  obtain ⟨dk, hkd⟩ := FdQueue.event_key_in q hne
+  have hkS : q.event.key ∈ s.queue fd dk := by rw [queue_of_reg_some hr]; exact hkd
+  have hktr := hinv.q.tracked fd dk _ hkS
+  have hksrc := (hinv.k.qFresh _ ⟨fd, dk, hkS⟩).1
+  obtain ⟨wk, hwk⟩ := hinv.k.pending_of_fresh hksrc (Or.inl ⟨fd, dk, hkS⟩)
+  have key : ∀ s2 : St W, Inv (fun x => x ∈ [fd]) s2 → s2.reg = s.reg → s2.track = s.track →
+      s2.world = s.world → (∀ x w, queuedP s x → s.keys.slot x = .pending w → s2.keys.slot x = .pending w) →
+      s2.keys.fin id = [] →
+      ∃ s', eventLoop ops s2 [⟨q.event.key, rd, wr⟩] = .ok (s', .ok) ∧ s'.reg fd = some q ∧
+        s'.track id = [⟨fd, d, false⟩] ∧ s'.epoll fd = some q.event ∧ (∃ w, s'.keys.slot id = .pending w) ∧
+        s'.keys.fin id = [] ∧ Inv noPend s' := by
+    intro s2 hinv2 hreg htrack hworld hslot hfin2
+    have hr2 : s2.reg fd = some q := by rw [hreg]; exact hr
+    obtain ⟨_, ev2, he2, _, _⟩ := (hinv2.q.armed fd).reg_some hr2
+    obtain ⟨s3, hs3, e1, e2, e3, e4, _⟩ := pollOne_pending ops s2 ⟨q.event.key, rd, wr⟩ fd q q' ev2 id d w'
+      hr2 he2 hpop hqeq (by rw [htrack]; exact htr) (by rw [hworld]; exact hop)
+    obtain ⟨s3', hs3', hinv3, _⟩ := inv_pollOne ops hinv2 fd q ⟨q.event.key, rd, wr⟩ hr2
+    rw [hs3] at hs3'
+    simp only [Except.ok.injEq, Prod.mk.injEq, and_true] at hs3'
+    subst hs3'
+    have hnp : (fun x => x ∈ [fd] ∧ x ≠ fd) = noPend := by
+      funext x; apply propext; simp [noPend]
+    rw [hnp] at hinv3
+    refine ⟨s3, ?_, by rw [e1]; exact hr2, by rw [e3, htrack]; exact htr, by rw [e2]; simp,
+      ⟨w0, by rw [e4]; exact hslot _ _ ⟨fd, d, hmemS⟩ hw0⟩, by rw [e4]; exact hfin2, hinv3⟩
+    unfold eventLoop
+    have hfree : (s2.keys.slot q.event.key == Slot.free) = false := by simp [hslot _ _ ⟨fd, dk, hkS⟩ hwk]
+    simp only [hfree, Bool.false_eq_true, if_false, htrack, hktr, nextFd, List.find?, Bool.not_false,
+      Option.map_some, hs3]
+    rfl
+  have fin : ∀ s' : St W, s'.track id = [⟨fd, d, false⟩] → nextFd (s'.track id) = some fd := by
+    intro s' ht; rw [ht]; simp [nextFd]
+  unfold poll
+  rw [hdel]
+  simp only [List.isEmpty_cons, Bool.false_eq_true, if_false]
+  cases hcc : (!s.chan.isEmpty) with
+  | false =>
+    simp only [Bool.false_eq_true, if_false]
+    obtain ⟨s', a, b, c, e, f, g, i⟩ := key _ hinv1 rfl rfl rfl (fun x w _ hx => hx) hfin
+    exact ⟨s', d, a, b, hrestd, c, fin s' c, e, f, g, i⟩
+  | true =>
+    simp only [if_true]
+    obtain ⟨s', a, b, c, e, f, g, i⟩ := key _ (inv_pollCompleted hinv1) (pollCompleted_reg _)
+      (pollCompleted_track _) (pollCompleted_world _)
+      (fun x w hxq hx => (pollCompleted_keeps_queued hinv1 x hxq w hx).1)
+      (pollCompleted_keeps_queued hinv1 id ⟨fd, d, hmemS⟩ w0 hw0).2
+    exact ⟨s', d, a, b, hrestd, c, fin s' c, e, f, g, i⟩
+
 /-! ## (d) FIFO per (descriptor, direction) -/
 
 /-- Every readiness queue is a subsequence of the submission order of its (descriptor, direction):
